@@ -89,8 +89,8 @@ def part_purefock(ctx, pq, conns, quick, rng):
         gates = L.passive_catalogue(d, rng=rng, size=ng)
         inputs = L.inputs(d, nmax, rng=rng, size=nin)
         recs = c01.explore(ctx, d, gates, inputs, depth)
-        if quick and len(recs) > 60:
-            recs = rng.sample(recs, 60)
+        if len(recs) > (60 if quick else 300):
+            recs = rng.sample(recs, 60 if quick else 300)
         compiled_budget = 10 if quick else 80
         for rec in recs:
             inp, idx, amps = OR.parse_terms(rec)
@@ -229,8 +229,8 @@ def part_gaussian_d(ctx, pq, conns, quick, rng, d, counters):
         gates = rng.sample(act, 1 if quick else 3) + rng.sample(pas, 3 if quick else 5)
         depth = 3
     recs = GR.explore(ctx, d, gates, depth)
-    if quick and len(recs) > 45:
-        recs = rng.sample(recs, 45)
+    if len(recs) > (45 if quick else 200):
+        recs = rng.sample(recs, 45 if quick else 200)
     perm = GR.xxpp_to_xpxp_perm(d)
     for rec in recs:
         mu, Gam, reps, nbar = GR.decode(rec, d)
@@ -269,8 +269,8 @@ def part_passive(ctx, pq, conns, quick, rng):
     d = 3
     gates = L.passive_catalogue(d, rng=rng, size=6, with_kerr=False)
     recs = c01.explore(ctx, d, gates, L.inputs(d, 3, rng=rng, size=3), 2)
-    if quick and len(recs) > 40:
-        recs = rng.sample(recs, 40)
+    if len(recs) > (40 if quick else 200):
+        recs = rng.sample(recs, 40 if quick else 200)
     for rec in recs:
         inp, idx, amps = OR.parse_terms(rec)
         n = sum(inp)
@@ -326,8 +326,8 @@ def part_fermionic(ctx, pq, conns, quick, rng):
         if k not in seen and len(r["hist"]) > 1:
             seen.add(k)
             recs.append(r)
-    if quick and len(recs) > 50:
-        recs = rng.sample(recs, 50)
+    if len(recs) > (50 if quick else 250):
+        recs = rng.sample(recs, 50 if quick else 250)
     basis = np.asarray(FU.get_fock_space_basis(d, d + 1))
     masks = [sum(int(b[k]) << k for k in range(d)) for b in basis]
     for rec in recs:
